@@ -9,8 +9,8 @@ def items():
     for mod in (subpackets, messages, fingerprints, tpk):
         out += [s for s in mod.scenarios() if PID in getattr(s, 'props', ())]
     try:
-        from contracts import packets
-        out += packets.scenarios()
+        from contracts import packets, subpacket_values
+        out += packets.scenarios() + [s for s in subpacket_values.scenarios() if PID in s.props]
     except ImportError:
         pass
     return out
